@@ -75,27 +75,32 @@ CASE_TIMEOUT = 600
 CHUNK = 1
 EXHAUSTIVE = {"quick": False, "thorough": False}
 FLOORS = {
-    "quick": {"distinct_nontrivial": 250,
-              "mon": {"oracle_selfcheck": 1, "row_vs_ref": 20000, "row_direct_vs_ref": 20000,
-                      "spline_value": 30000, "spline_derivative": 30000,
-                      "direct_vs_ref": 1500, "known_zero": 4, "envelope": 600,
-                      "direct_derivative": 60, "beyond_eval": 400, "table_meta": 2,
-                      "pot_assembly": 150, "pot_stefan_boltzmann": 30, "pot_heavy": 30,
-                      "pot_continuity": 100, "pot_cw": 60, "pot_global_state": 6,
-                      "pot_args": 150},
-              "cls": {"rows:b": 10, "rows:f": 10, "direct:b": 5, "direct:f": 5,
-                      "beyond": 32, "pot:massless": 20, "pot:heavy": 20, "pot:cont0": 20,
-                      "pot:contEnd": 16, "pot:cw": 20, "pot:global": 6, "pot:random": 40}},
-    "thorough": {"distinct_nontrivial": 1500,
-                 "mon": {"oracle_selfcheck": 1, "row_vs_ref": 20000,
-                         "row_direct_vs_ref": 20000, "spline_value": 150000,
-                         "spline_derivative": 150000, "direct_vs_ref": 15000,
-                         "known_zero": 4, "envelope": 6000, "direct_derivative": 600,
-                         "beyond_eval": 2000, "table_meta": 2, "pot_assembly": 1500,
-                         "pot_stefan_boltzmann": 300, "pot_heavy": 300,
-                         "pot_continuity": 1000, "pot_cw": 600, "pot_global_state": 40,
-                         "pot_args": 1500},
-                 "cls": {"rows:b": 10, "rows:f": 10, "beyond": 160, "pot:global": 40}},
+    # quick, seed 0 on the unchanged tree: row_* 40000, spline_* 79992, direct_vs_ref 5008,
+    # envelope 1626, direct_derivative 216, beyond_eval 896, pot_assembly 277, pot_args 554,
+    # pot_continuity 256, pot_stefan_boltzmann/pot_heavy/pot_cw 24, pot_global_state 16
+    "quick": {"distinct_nontrivial": 300,
+              "mon": {"oracle_selfcheck": 1, "row_vs_ref": 40000, "row_direct_vs_ref": 40000,
+                      "spline_value": 79000, "spline_derivative": 79000,
+                      "direct_vs_ref": 3500, "known_zero": 4, "envelope": 1000,
+                      "direct_derivative": 100, "beyond_eval": 600, "table_meta": 2,
+                      "pot_assembly": 150, "pot_stefan_boltzmann": 15, "pot_heavy": 15,
+                      "pot_continuity": 150, "pot_cw": 15, "pot_global_state": 12,
+                      "pot_args": 300, "pot_j_vs_ref": 100, "pot_error_option": 20},
+              "cls": {"rows:b": 50, "rows:f": 50, "direct:b": 25, "direct:f": 25,
+                      "beyond": 32, "pot:massless": 20, "pot:heavy": 20, "pot:cont0": 28,
+                      "pot:contEnd": 16, "pot:cw": 20, "pot:global": 6, "pot:random": 40,
+                      "tablemeta": 2, "oracle-selfcheck": 1}},
+    "thorough": {"distinct_nontrivial": 2500,
+                 "mon": {"oracle_selfcheck": 1, "row_vs_ref": 40000,
+                         "row_direct_vs_ref": 40000, "spline_value": 300000,
+                         "spline_derivative": 300000, "direct_vs_ref": 30000,
+                         "known_zero": 4, "envelope": 10000, "direct_derivative": 1000,
+                         "beyond_eval": 3000, "table_meta": 2, "pot_assembly": 1500,
+                         "pot_stefan_boltzmann": 150, "pot_heavy": 150,
+                         "pot_continuity": 1500, "pot_cw": 150, "pot_global_state": 120,
+                         "pot_args": 3000, "pot_j_vs_ref": 1000, "pot_error_option": 200},
+                 "cls": {"rows:b": 50, "rows:f": 50, "beyond": 160, "pot:global": 60,
+                         "tablemeta": 2, "oracle-selfcheck": 1}},
 }
 
 EPS_QUAD = 1.49e-8      # scipy.integrate.quad default epsabs = epsrel
@@ -107,6 +112,7 @@ W = 12                  # half window (nodes) of the local reference spline; 0.2
 NEG_BLOCK = 14
 POS_BLOCK = 250
 PI2 = math.pi ** 2
+SERIES_MIN = 1e-3       # below this the Bessel series needs > 1400 terms; mpmath is used instead
 
 _O = None               # oracle module (imported lazily in the worker)
 
@@ -145,7 +151,7 @@ def ref_J(kind, x):
     key = (kind, "v", float(x))
     if key not in _REF:
         O = _oracle()
-        if x > 0:
+        if x > SERIES_MIN:
             _REF[key] = (float(O.series(kind, x)[0]), 0.0)
         else:
             _REF[key] = O.J(kind, float(x))
@@ -156,7 +162,7 @@ def ref_dJ(kind, x):
     key = (kind, "d", float(x))
     if key not in _REF:
         O = _oracle()
-        if x > 0:
+        if x > SERIES_MIN:
             _REF[key] = (float(O.dseries(kind, x)[0]), 0.0)
         else:
             _REF[key] = O.dJ(kind, float(x))
@@ -1078,7 +1084,6 @@ def _pot_inner(case):
             for delta in (1e-3, 1e-6, 1e-9):
                 vals = {}
                 for sgn in (-1.0, 1.0):
-                    m2b = np.array(rng.uniform(0.5, 30, size=nb))
                     m2b = np.array([3.0 + i for i in range(nb)], dtype=float)
                     m2f = np.array([2.0 + i for i in range(nf)], dtype=float)
                     if kind == "b":
